@@ -253,7 +253,8 @@ def check(prop, tier, seed):
                             "secs": r["secs"], "ok": r["ok"], "fresh_run": not r.get("cached", False)} for r in mcs],
         "witnesses_reached": wits,
         "simulation": [{k: s[k] for k in ("config", "states_checked", "traces", "secs", "ok")} for s in sims],
-        "implementation_executions": nexec, "implementation_events": nevents,
+        "implementation_executions": nexec + extra_cov.pop("implementation_executions", 0),
+        "implementation_events": nevents + extra_cov.pop("implementation_events", 0),
         "profiles": sorted(pres["profiles"].keys()),
         "conformance_drift": drift[:20],
         "monitor": ("Monitors.tla checks tagged " + prop) if spec.get("pool", True) else "CompTrace.tla",
@@ -269,7 +270,7 @@ def check(prop, tier, seed):
         return 1
     if infra:
         return 2
-    vlib.log("OK property=%s tier=%s executions=%d events=%d mc_states=%d wall=%.0fs" % (prop, tier, nexec, nevents, cov["states"], time.time() - t0))
+    vlib.log("OK property=%s tier=%s executions=%d events=%d mc_states=%d wall=%.0fs" % (prop, tier, cov["implementation_executions"], cov["implementation_events"], cov["states"], time.time() - t0))
     return 0
 
 
